@@ -3,12 +3,14 @@ import AnyTLS.Drv.Util
 import AnyTLS.Drv.Frame
 import AnyTLS.Drv.Sess
 import AnyTLS.Drv.Pipe
+import AnyTLS.Drv.Dest
 
 open AnyTLS.Drv
 
 structure DrvState where
   sess : Option MNode := none
   pipe : Option MPipe := none
+  dns : AnyTLS.DnsCache := []
 
 def sessLine (st : DrvState) (toks : List String) : DrvState × String :=
   match toks with
@@ -43,6 +45,8 @@ def dispatch (st : DrvState) (line : String) : DrvState × String :=
   | "frame" :: rest => (st, frameOp rest)
   | "sess" :: rest => sessLine st rest
   | "auth" :: rest => (st, authOp rest)
+  | "dest" :: rest => (st, destOp rest)
+  | "dns" :: rest => let (c, o) := dnsOp st.dns rest; ({ st with dns := c }, o)
   | "pad" :: "preamble" :: rest => (st, preambleOp rest)
   | "pad" :: rest => sessLine st rest
   | "pipe" :: rest => pipeLine st rest
